@@ -333,6 +333,8 @@ def _body_sparse(torch, zoo, rec, seed, tier):
                     for ix in il:
                         lab = f"{dn}|shape={sh}|{kind}|idx={ix}"
                         exp = d[ix]
+                        if fam_ == "negative_int" and not bool((exp != 0).any()):
+                            continue  # (an all-zero answer cannot tell a right lookup from an empty one)
                         zero_len = any(isinstance(i_, slice) and len(range(*i_.indices(sh[k_]))) == 0 for k_, i_ in enumerate(ix))
                         grp = f"sparse_getitem/{nd}d_{'zero_length_slice' if zero_len else fam_}"
                         ok, res = rec.guard(grp, lab, lambda: S.sparse_getitem(mk(d), ix if len(ix) > 1 else ix[0]))
@@ -348,7 +350,7 @@ def _body_sparse(torch, zoo, rec, seed, tier):
         # (shape, repeats, family)
         ((1, 3), (2, 1), "size1_dims"), ((1, 1, 3), (2, 3, 1), "size1_dims"), ((1, 2, 3), (3, 1, 1), "size1_dims"), ((2, 3), (1, 1), "size1_dims"),
         ((2, 3), (4, 1, 1), "size1_dims"), ((1, 3), (2, 2, 1), "size1_dims"), ((3,), (2, 1), "size1_dims"),
-        ((2, 3), (2, 1), "general"), ((2, 3), (1, 2), "general"), ((2, 3), (2, 2), "general"), ((3,), (2,), "general"), ((2, 2, 2), (1, 3, 1), "general"),
+        ((2, 3), (2, 1), "general"), ((2, 3), (1, 2), "general"), ((2, 3), (2, 2), "general"), ((3,), (2,), "single_int_count"), ((2, 2, 2), (1, 3, 1), "general"),
         ((2, 3), (2, 1, 2), "general"), ((1, 3), (2, 3), "general"),
     ]
     for dt, dn in _dts(torch):
